@@ -338,6 +338,8 @@ pid_t __wrap_waitpid(pid_t pid, int *status, int options) {
     return r;
 }
 
+static int cplan_fd;
+static long cplan_closes;
 static int fail_pipe_countdown = 0;
 int __wrap_pipe(int fds[2]) {
     c16_init();
@@ -351,6 +353,7 @@ int __wrap_pipe(int fds[2]) {
     return r;
 }
 int __wrap_close(int fd) {
+    if (fd >= 0 && fd == cplan_fd) cplan_closes++;
     int r = __real_close(fd);
     KLOG("close fd=%d ret=%d", fd, r);
     return r;
@@ -648,6 +651,41 @@ static int netdrive_main(int argc, char **argv) {
     return 0;
 }
 
+/* ------------------------------------------------------------------ connect(): planned answers for the next calls
+ * (c16/connect-plan [x ...]): the next connect() calls are answered from the plan: 0 = the real call, -1 = EINTR (the real call
+ * is NOT made), e > 0 = fails with errno e.  (c16/connect-stats) -> [calls made under the plan, closes of that descriptor]. */
+int __real_connect(int, const struct sockaddr *, socklen_t);
+static int cplan[16], cplan_n = 0, cplan_i = 0;
+static int cplan_fd = -1;
+static long cplan_calls = 0;
+static long cplan_closes = 0;
+int __wrap_connect(int fd, const struct sockaddr *a, socklen_t l) {
+    if (cplan_i < cplan_n) {
+        int x = cplan[cplan_i++];
+        cplan_calls++;
+        cplan_fd = fd;
+        if (x == 0) return __real_connect(fd, a, l);
+        errno = x < 0 ? EINTR : x;
+        return -1;
+    }
+    return __real_connect(fd, a, l);
+}
+static Janet c16_connect_plan(int32_t argc, Janet *argv) {
+    janet_fixarity(argc, 1);
+    JanetView v = janet_getindexed(argv, 0);
+    cplan_n = v.len > 16 ? 16 : v.len;
+    for (int i = 0; i < cplan_n; i++) cplan[i] = janet_unwrap_integer(v.items[i]);
+    cplan_i = 0; cplan_calls = 0; cplan_closes = 0; cplan_fd = -1;
+    return janet_wrap_nil();
+}
+static Janet c16_connect_stats(int32_t argc, Janet *argv) {
+    (void) argv;
+    janet_fixarity(argc, 0);
+    Janet t[3] = { janet_wrap_integer((int32_t) cplan_calls), janet_wrap_integer((int32_t) cplan_closes), janet_wrap_integer(cplan_n - cplan_i) };
+    cplan_n = cplan_i = 0;
+    return janet_wrap_tuple(janet_tuple_n(t, 3));
+}
+
 /* (c16/stall-listener) -> [port listener-fd filler-fd]: a TCP listener on 127.0.0.1 with backlog 0 whose accept queue is already
  * full (one established, never accepted connection): the kernel drops further SYNs, so the next connect stays in progress until
  * somebody accepts.  No wall clock involved. */
@@ -826,6 +864,8 @@ static const JanetReg c16_cfuns[] = {
     {"c16/stall-listener", c16_stall_listener, NULL},
     {"c16/close-fd", c16_close_fd, NULL},
     {"c16/burst-connect", c16_burst_connect, NULL},
+    {"c16/connect-plan", c16_connect_plan, NULL},
+    {"c16/connect-stats", c16_connect_stats, NULL},
     {NULL, NULL, NULL}
 };
 
